@@ -181,6 +181,7 @@ func runC06(r *Report) {
 	}
 	// R5 PEX siblings
 	c06R5(r, read)
+	c06R6(r)
 }
 
 // writerTable extracts, for each case of Write's type switch, id / length / field order.
@@ -494,4 +495,167 @@ func c06R5(r *Report, read *ssa.Function) {
 		}
 	}
 	r.Sentinel("R5", n, 4)
+}
+
+// ---------- R6: buffer pool discipline ----------
+
+// c06R6: a sync.Pool of byte slices in package protocol hands out buffers without looking at their length, so the pool
+// may only ever contain slices of exactly the size its New function makes: every Put of a slice that does not come
+// from a Get in the same function is dominated by len(x) == S (equality, not >=), and a Get whose result is returned
+// as "a buffer of the requested length" is dominated by requested == S. Otherwise a larger slice enters the pool and
+// a later 16 KiB Piece is read into it: the payload swallows the following messages.
+func c06R6(r *Report) {
+	p := r.P
+	n := 0
+	pkg := p.SSAPkg("protocol")
+	if !r.Anchor("R6", "package protocol", pkg != nil) {
+		return
+	}
+	// pool globals and the size their New makes
+	sizes := map[*ssa.Global]int64{}
+	if init := pkg.Func("init"); init != nil {
+		allInstrs(init, func(in ssa.Instruction) {
+			st, ok := in.(*ssa.Store)
+			if !ok {
+				return
+			}
+			// var pool = sync.Pool{New: f}: the literal is initialised in place (&pool.New = f) or built in a local
+			// and stored whole into the global, depending on the SSA builder
+			var g *ssa.Global
+			var fn *ssa.Function
+			fnOf := func(v ssa.Value) *ssa.Function {
+				switch x := v.(type) {
+				case *ssa.MakeClosure:
+					f, _ := x.Fn.(*ssa.Function)
+					return f
+				case *ssa.Function:
+					return x
+				}
+				return nil
+			}
+			if fa, okf := st.Addr.(*ssa.FieldAddr); okf && fieldVar(fa) != nil && fieldVar(fa).Name() == "New" {
+				if gg, okg := fa.X.(*ssa.Global); okg && typeIs(gg.Type(), "sync", "Pool") {
+					g, fn = gg, fnOf(st.Val)
+				}
+			} else if gg, okg := st.Addr.(*ssa.Global); okg && typeIs(gg.Type(), "sync", "Pool") {
+				if ld, okl := st.Val.(*ssa.UnOp); okl && ld.Op == token.MUL {
+					if al, oka := ld.X.(*ssa.Alloc); oka {
+						for _, ref := range *al.Referrers() {
+							fa, okf := ref.(*ssa.FieldAddr)
+							if !okf || fieldVar(fa) == nil || fieldVar(fa).Name() != "New" {
+								continue
+							}
+							for _, r2 := range *fa.Referrers() {
+								if s2, oks := r2.(*ssa.Store); oks {
+									g, fn = gg, fnOf(s2.Val)
+								}
+							}
+						}
+					}
+				}
+			}
+			if fn == nil {
+				return
+			}
+			allInstrs(fn, func(i2 ssa.Instruction) {
+				if mk, ok := i2.(*ssa.MakeSlice); ok {
+					if k, okk := constInt(mk.Len); okk {
+						sizes[g] = k
+					}
+				}
+				// make([]byte, K) with a constant K is an array allocation that is then sliced
+				if al2, ok := i2.(*ssa.Alloc); ok && al2.Comment == "makeslice" {
+					if at, okA := derefType(al2.Type()).Underlying().(*types.Array); okA {
+						sizes[g] = at.Len()
+					}
+				}
+			})
+		})
+	}
+	poolOf := func(c *ssa.Call) *ssa.Global {
+		if len(c.Call.Args) == 0 {
+			return nil
+		}
+		g, _ := c.Call.Args[0].(*ssa.Global)
+		if _, has := sizes[g]; !has {
+			return nil
+		}
+		return g
+	}
+	eqGuard := func(b *ssa.BasicBlock, S int64, isSubject func(v ssa.Value) bool) bool {
+		for _, g := range guardsOf(b) {
+			op, x, y, ok := cmpFact(g)
+			if !ok || op != token.EQL {
+				continue
+			}
+			if k, okk := constInt(y); okk && k == S && isSubject(stripIntConv(x)) {
+				return true
+			}
+			if k, okk := constInt(x); okk && k == S && isSubject(stripIntConv(y)) {
+				return true
+			}
+		}
+		return false
+	}
+	for _, f := range p.SrcFuncs() {
+		if relPkg(f) != "protocol" {
+			continue
+		}
+		allInstrs(f, func(in ssa.Instruction) {
+			c, ok := in.(*ssa.Call)
+			if !ok {
+				return
+			}
+			switch {
+			case isStdCall(c, "sync", "Pool", "Put"):
+				g := poolOf(c)
+				if g == nil || len(c.Call.Args) < 2 {
+					return
+				}
+				n++
+				r.Fn(f)
+				v := strip(c.Call.Args[1])
+				// a slice obtained from the pool in this function goes back as it came
+				if ta, isTA := v.(*ssa.TypeAssert); isTA {
+					if gc, isC := ta.X.(*ssa.Call); isC && isStdCall(gc, "sync", "Pool", "Get") {
+						r.Ok("R6", fname(f)+"/pool.Put", c.Pos(), "the slice put back is the one taken from the pool")
+						return
+					}
+				}
+				okG := eqGuard(c.Block(), sizes[g], func(x ssa.Value) bool { return isLenOf(x, v) })
+				r.Check(okG, "R6", fname(f)+"/pool.Put-exact-size", c.Pos(), "only slices of exactly the pool's size enter the pool",
+					fmt.Sprintf("a slice enters the buffer pool on a path not dominated by len(buf) == %d: the pool's Get hands out whatever it holds for a %d-byte request, so a larger slice makes a later Piece payload swallow the messages that follow it (and a shorter one truncates it)", sizes[g], sizes[g]))
+			case isStdCall(c, "sync", "Pool", "Get"):
+				g := poolOf(c)
+				if g == nil {
+					return
+				}
+				// is the pooled slice returned as the buffer of a requested length?
+				returned := false
+				for _, ret := range returnsOf(f) {
+					for _, res := range ret.Results {
+						if ta, isTA := strip(res).(*ssa.TypeAssert); isTA && ta.X == ssa.Value(c) {
+							returned = true
+						}
+					}
+				}
+				if !returned {
+					return
+				}
+				n++
+				r.Fn(f)
+				okG := eqGuard(c.Block(), sizes[g], func(x ssa.Value) bool {
+					for _, prm := range f.Params {
+						if x == ssa.Value(prm) {
+							return true
+						}
+					}
+					return false
+				})
+				r.Check(okG, "R6", fname(f)+"/pool.Get-exact-size", c.Pos(), "a pooled buffer is handed out only for a request of exactly the pool's size",
+					fmt.Sprintf("a pooled buffer is returned on a path not dominated by requested length == %d: the caller gets a buffer of another length than it asked for", sizes[g]))
+			}
+		})
+	}
+	r.Sentinel("R6", n, 2)
 }
